@@ -146,22 +146,25 @@ def audit(pid):
     """Build Props/<pid>, then #print axioms for every theorem in it.
 
     Returns dict(obligations, discharged, broken=[...], axioms={thm: [...]}, log)."""
-    props = LEAN / "WsVerif" / "Props" / f"{pid}.lean"
+    files = sorted((LEAN / "WsVerif" / "Props").glob(f"{pid}*.lean"))
+    props = files[0] if files else LEAN / "WsVerif" / "Props" / f"{pid}.lean"
     res = dict(obligations=0, discharged=0, broken=[], axioms={}, log="", theorems=[])
-    names = theorem_names(props)
+    names = [n for f in files for n in theorem_names(f)]
     res["theorems"] = names
     res["obligations"] = len(names)
-    ok, out = lake_build([f"WsVerif.Props.{pid}"])
+    mods = [f"WsVerif.Props.{f.stem}" for f in files]
+    ok, out = lake_build(mods)
     res["log"] = out[-6000:]
     if not ok:
         # find which declarations failed
         bad = sorted(set(re.findall(r"error: [^\n]*?(?:Props/%s\.lean|Lemmas/\w+\.lean|Gen/\w+\.lean|Model/\w+\.lean):(\d+)" % pid, out)))
         res["broken"] = [f"lake build WsVerif.Props.{pid} failed (lines {','.join(bad) or '?'})"]
-        res["broken"] += _locate_failed(props, out)
+        for f in files:
+            res["broken"] += _locate_failed(f, out)
         return res
     BUILD.mkdir(exist_ok=True)
     af = BUILD / f"audit_{pid}.lean"
-    af.write_text(f"import WsVerif.Props.{pid}\n" + "".join(f"#print axioms {n}\n" for n in names))
+    af.write_text("".join(f"import {m}\n" for m in mods) + "".join(f"#print axioms {n}\n" for n in names))
     r = run(["lake", "env", "lean", str(af)], cwd=LEAN, timeout=1200)
     txt = r.stdout + r.stderr
     cur = None
@@ -452,6 +455,11 @@ class Check:
                 log(self.audit["log"][-3000:])
         for d in unexplained[:3]:
             log("disagreement:", json.dumps(d, default=str)[:1500])
+        if unlisted:
+            hist = {}
+            for f in unlisted:
+                hist[(f["op"], f["trigger"])] = hist.get((f["op"], f["trigger"]), 0) + 1
+            log("unlisted oracle failures by (op, trigger):", sorted(hist.items(), key=lambda kv: -kv[1])[:20])
         for f in unlisted[:3]:
             log("oracle failure:", json.dumps(f, default=str)[:1500])
         return rc
